@@ -537,6 +537,20 @@ def main_run(prop, tier, cases, *, functions=(), bounds=None, stubs=(), assumpti
 def replay_file(path, cases):
     with open(path) as f:
         data = json.load(f)
+    if str(data.get('case', '')).startswith('process-environment:'):
+        # a scenario run in fresh interpreters: run it again under every environment and show what comes out; the
+        # result of the reference environment is judged by the full check (bin/check <ID>), differences between
+        # environments are judged here
+        from . import envsweep
+        name = data['case'].split(':', 1)[1]
+        results = envsweep.run_scenario(name)
+        for envx, r in results:
+            print(json.dumps(envx), '->', json.dumps(r)[:600])
+        if any(r != results[0][1] for _, r in results[1:]) or not results[0][1]['ok']:
+            print(f'VIOLATION property={data["property"]} replay={path}')
+            return EXIT_VIOLATION
+        print('replay: every environment agrees with the reference environment; run the full check to judge the reference result')
+        return EXIT_HARNESS
     by_name = {c.name: c for c in cases}
     case = by_name.get(data['case'])
     if case is None:
